@@ -426,6 +426,11 @@ class Stage:
         size = (self.W, self.H)
         key = repr(self.spec)
         if self.top is None or key != self.top_spec:
+            # the containers are rebuilt around the persistent leaf widgets; drop urwid's record of the
+            # discarded containers (CanvasCache._deps would keep them - and through them deleted image
+            # widgets - alive for a history-dependent time, which no application that edits its containers
+            # in place would see)
+            u.CanvasCache._deps.clear()
             self.top = self.build_top()
             self.top_spec = key
         canvas = self.top.render(size, focus=True)
@@ -553,7 +558,7 @@ class Stage:
     def canon(self):
         um = self.um
         ws = tuple((wid, kind, getattr(w, "_ti_z_index", None), w._ti_disguise_state, wid in self.widgets)
-                   for wid, kind, w in self.live_widgets())
+                   for wid, kind, w in self.live_widgets() if wid in self.widgets or kind == "K")
         return h64(repr((self.spec, ws, um.UrwidImageCanvas._ti_disguise_state,
                          sorted(um.UrwidImage._ti_free_z_indexes), um.UrwidImage._ti_next_z_index)))
 
